@@ -87,6 +87,7 @@ DEV_ANGLES = {'quick': [0, 30], 'thorough': [0, 30]}
 SP_DEVS = [['i', 'i', 'i'], ['t', 't', 't'], ['i', 'u', 'u'], ['u', 'i', 'u'], ['u', 'u', 'i'],
            ['t', 'u', 'u'], ['u', 't', 'u'], ['u', 'u', 't']]
 BND_KINDS = [[a, v, c] for a in ('top3', 'bot3', 'side1', 'side2') for v in ('zero', 'huge') for c in ('n', 'c')]
+BND_NAMES = ['bdy 1', 'bdy 2', 'bdy 3', 'zzz99', 'AAA 1', '  z 9', 'b   7', 'Q0001']
 BIG = (10, 12, 14)
 TOP, DOWN, MID, ABOVE = [0, 4], [1, 4], [0, 2], [0, 6]
 AVOL = {'d': 1.e25, 'z': 0.0, 'h': 1.e50}       # atmosphere volume of the generating geometry
@@ -247,6 +248,26 @@ def unit_cases(unit, tier):
         c = emit(c)
         if c:
             yield c
+    # C: data-file path x every convention pair, crossed in both tiers (what the file does not keep - e.g. the
+    # atmosphere flag of a block - only shows when the block map has to rename)
+    for a in range(4):
+        for b in range(4):
+            c = emit(with_(base, shift=1, file=True, cs=a, cr=b))
+            if c:
+                yield c
+    # D: a basal boundary block under a column that is ONE block high, next to that block's atmosphere connection.
+    # Which of the two direction-3 neighbours the library meets first depends on the iteration order of a set
+    # of name tuples; the boundary block's name is a dimension so that both orders occur under the fixed hash seed.
+    if nz == 2 and atm != 2:
+        for s in surface_family(nx, ny, nz):
+            if s[0] != DOWN:
+                continue
+            for vol in ('zero', 'huge'):
+                for cen in ('n', 'c'):
+                    for bname in BND_NAMES:
+                        c = emit(with_(base, surf=s, bnd=['bot3', vol, cen], bname=bname))
+                        if c:
+                            yield c
 
 
 def units(tier):
@@ -258,7 +279,7 @@ def units(tier):
 
 def case_key(c):
     return repr((c['nx'], c['ny'], c['nz'], c['sp'], c['shift'], c['angle'], c['atm'], c['surf'], c['cs'], c['cr'],
-                 c['bnd'], c['ob'], c['rmi'], c['file'], c.get('avol', 'd')))
+                 c['bnd'], c['ob'], c['rmi'], c['file'], c.get('avol', 'd'), c.get('bname', 'bdy 1')))
 
 
 # ---------------------------------------------------------------------------------------------- one case
@@ -378,9 +399,11 @@ def add_boundary(case, geo, grid, m):
     else:
         other, d, off = blk(nz - 1, 0, ny - 1), 2, e2 * (0.5 * m.dy[-1] + 1.0)
     centre = None if cen == 'n' else other.centre + off
-    b = t2block('bdy 1', 0.0 if vol == 'zero' else 1.e50, grid.rocktypelist[0], centre=centre)
+    b = t2block(case.get('bname', 'bdy 1'), 0.0 if vol == 'zero' else 1.e50, grid.rocktypelist[0], centre=centre)
     grid.add_block(b)
-    grid.add_connection(t2connection([other, b], d, [1.0, 1.e-9], 10.0, -1.0 if d == 3 else 0.0))
+    # gravity cosine as fromgeo writes it: -1 when the second block is above the first
+    dircos = {'top3': -1.0, 'bot3': 1.0}.get(attach, 0.0)
+    grid.add_connection(t2connection([other, b], d, [1.0, 1.e-9], 10.0, dircos))
     return b.name
 
 
@@ -616,13 +639,16 @@ def shape_class(case):
 
 
 REVERT = [('file', lambda c, b: with_(c, file=False), lambda c: 'file' if c['file'] else None),
+          ('bname', lambda c, b: with_(c, bname='bdy 1'),
+           lambda c: 'boundary-name-order' if c['bnd'] and c.get('bname', 'bdy 1') != 'bdy 1' else None),
           ('bnd', lambda c, b: with_(c, bnd=None), lambda c: ('bnd=' + '/'.join(c['bnd'])) if c['bnd'] else None),
+
           ('rmi', lambda c, b: with_(c, rmi=False), lambda c: 'remove_inactive' if c['rmi'] else None),
           ('avol', lambda c, b: with_(c, avol='d'),
            lambda c: 'atmosphere-volume=' + {'z': '0', 'h': '1e50'}[c['avol']] if c.get('avol', 'd') != 'd' else None),
-          ('ob', lambda c, b: with_(c, ob='auto'), lambda c: 'origin_block-given' if c['ob'] == 'name' else None),
+          ('ob', lambda c, b: with_(c, ob='auto'), lambda c: 'origin_block-given' if c['ob'] == 'name' and not (c['bnd'] and c['bnd'][0] == 'bot3' and c['bnd'][2] == 'c') else None),
           ('conv', lambda c, b: with_(c, cs=0, cr=0),
-           lambda c: 'conv=%d->%d' % (c['cs'], c['cr']) if (c['cs'], c['cr']) != (0, 0) else None),
+           lambda c: ('conv-differs' if c['cs'] != c['cr'] else 'conv=%d' % c['cs']) if (c['cs'], c['cr']) != (0, 0) else None),
           ('surf', lambda c, b: with_(c, surf=b['surf']), lambda c: 'surface' if any(s != TOP for s in c['surf']) else None),
           ('angle', lambda c, b: with_(c, angle=0), lambda c: 'angle=%r' % c['angle'] if c['angle'] != 0 else None),
           ('shift', lambda c, b: with_(c, shift=0), lambda c: 'shifted' if c['shift'] else None),
@@ -697,7 +723,7 @@ def run_unit(unit, tier, rec):
             rec.violation(signature(case, r, memo), r[2], case)
         if n % 997 == 1:
             rec.sample({k: case[k] for k in ('nx', 'ny', 'nz', 'sp', 'shift', 'angle', 'atm', 'surf', 'cs', 'cr', 'bnd',
-                                             'ob', 'rmi', 'file', 'avol')})
+                                             'ob', 'rmi', 'file', 'avol')})  # noqa
     rec.count('cases_%s' % unit[0], n)
     rec.count('units', 1)
 
